@@ -224,7 +224,12 @@ func genCfg(r *verifsim.Run, focus string) cCfg {
 	}
 	c.Fps = r.OneOf(1, 2, 3, 5, 9, 9)
 	c.Serial = r.OneOf(0, 1, 12345, r.Draw(1<<31))
-	c.Firmware = []string{"", "1.2.3", "3.3.26", randName(r, 40), randName(r, 250), "Lepton 3.5 radiometric build 2019-11-05 (gpp 3.3.26 dsp 3.3.26) shuttered, factory calibrated unit"}[r.Draw(6)]
+	c.Firmware = []string{"", "1.2.3", "3.3.26", randName(r, 40), randName(r, 250), "Lepton 3.5 radiometric build 2019-11-05 (gpp 3.3.26 dsp 3.3.26) shuttered, factory calibrated unit", "yaml"}[r.Draw(7)]
+	if c.Firmware == "yaml" {
+		// revision strings that other YAML dialects read as something else than a string
+		y := []string{"2021-03-24", "2001-12-14t21:59:43.10-05:00", "2001-12-14 21:59:43.10 -5", "true", "null", "~", "1e3", "0x1F", "12:30:45", "- a", "a: b", "#x", "'q'", "[1]", "{a}", "!!str x", "|", ">", "yes", "No", "0o14", ".inf", "010", "1_000", "3.3", "<<", "=", "*a", "&a b", "%TAG"}
+		c.Firmware = y[r.Draw(len(y))]
+	}
 	c.DeviceID = r.OneOf(0, 1, 77, r.Draw(1<<20))
 	c.DeviceName = randName(r, 255)
 	c.Preview = r.Draw(3)
@@ -1122,9 +1127,32 @@ func runCE2E(r *verifsim.Run) {
 	sc.OutName = outNames[r.Draw(len(outNames))]
 	nConn := r.OneOf(1, 1, 2)
 	id := 0
+	// stratum: cameras whose frames are larger than a Lepton's 39040 bytes, one after the other
+	// (every per-connection buffer has to be sized for the camera that is connected now)
+	big := (r.Prop == "C14" || r.Prop == "C13" || r.Prop == "C11") && r.Chance(1, 30)
+	bigDims := [][2]int{{200, 100}, {160, 125}, {142, 138}, {250, 90}, {176, 112}}
+	if big {
+		nConn = r.OneOf(2, 3)
+		r.Probe("stratum-large-frame-cameras")
+	}
 	for i := 0; i < nConn; i++ {
 		cfg := genCfg(r, r.Prop)
-		if i > 0 && r.Chance(1, 2) {
+		if big {
+			cfg.Model = "boson"
+			cfg.Exp = goconfig.DefaultThermalMotion(cfg.Model)
+			cfg.MotionKeys = []string{"dynamic-threshold = false", "temp-thresh = 2900", "delta-thresh = 50", "count-thresh = 3", "frame-compare-gap = 2"}
+			cfg.Exp.DynamicThreshold, cfg.Exp.TempThresh, cfg.Exp.DeltaThresh, cfg.Exp.CountThresh, cfg.Exp.FrameCompareGap = false, 2900, 50, 3, 2
+			d := bigDims[r.Draw(len(bigDims))]
+			cfg.W, cfg.H = d[0], d[1]
+			cfg.ThrOn = false
+			if i > 0 {
+				// same config.toml, another large camera
+				d0 := sc.Conns[0].Cfg
+				d0.W, d0.H, d0.Fps = cfg.W, cfg.H, cfg.Fps
+				cfg = d0
+			}
+		}
+		if !big && i > 0 && r.Chance(1, 2) {
 			cfg = sc.Conns[0].Cfg // same camera reconnects
 			if r.Chance(1, 2) {
 				// ... or another camera is plugged in while the daemon keeps running (config.toml untouched, the
@@ -1136,6 +1164,17 @@ func runCE2E(r *verifsim.Run) {
 			cfg.Cont = true
 		}
 		cn := genConn(r, r.Prop, cfg, id)
+		if big {
+			// few frames, delivered in large pieces (a byte at a time would take minutes)
+			if len(cn.Ev) > 25 {
+				cn.Ev = cn.Ev[:25]
+			}
+			fs := cfg.frameSize()
+			cn.Chunks = []int{fs, fs / 3, 2*fs + 17, 4096}[:r.Range(1, 4)]
+			if cn.CutAt > 0 {
+				cn.CutAt = -1
+			}
+		}
 		if cfg.throttled() {
 			var ev []cEvent
 			for _, e := range cn.Ev {
